@@ -104,9 +104,10 @@ impl QueryEngine {
 
     /// Register `metrics` for the given chunk paths, then execute the operation.
     ///
-    /// The registration lock is released before `operation` runs so that slow
-    /// queries do not block other concurrent requests from registering their
-    /// own chunk sets.
+    /// The statement resolves the name `metrics` when it is planned inside `operation`,
+    /// so the registration lock is held until `operation` has finished: otherwise a
+    /// concurrent request can rebind `metrics` to its own chunk set in between and this
+    /// request is answered from the wrong chunks.
     pub async fn with_metrics_table<F, Fut, T>(
         &self,
         chunk_paths: &[String],
@@ -116,7 +117,9 @@ impl QueryEngine {
         F: FnOnce() -> Fut,
         Fut: Future<Output = Result<T>>,
     {
-        self.register_metrics_table_for_chunks(chunk_paths).await?;
+        let _guard = self.metrics_table_query_lock.lock().await;
+        self.register_metrics_table_for_chunks_locked(chunk_paths)
+            .await?;
         #[cfg(feature = "verif-hooks")]
         crate::verif_hooks::pause("engine:after_register").await;
         operation().await
